@@ -126,6 +126,10 @@ var pureVi = []string{"vi-backward-char", "vi-forward-char", "vi-prev-word", "vi
 	"vi-find-prev-char-skip", "vi-char-search", "vi-yank-whole-line", "vi-set-mark", "vi-arg-digit",
 	"beginning-of-line", "end-of-line"}
 
+// commands bound in the operator-pending keymap (internal/keymap/vim.go vioppKeys)
+var vioppCommands = []string{"vi-select-inside", "vi-select-surround", "select-a-blank-word", "select-a-shell-word",
+	"select-a-word", "select-in-blank-word", "select-in-shell-word", "select-in-word", "down-line", "up-line"}
+
 // commands outside every claim: they spawn an external editor / re-read files
 var skipCommands = map[string]string{
 	"edit-and-execute-command":    "spawns the external editor (os/exec)",
@@ -259,6 +263,22 @@ func init() {
 					}
 					if tier == "thorough" {
 						jobs = append(jobs, stepJob(mode, cmd, 1, "2", "", false, false))
+					}
+				}
+			}
+			// every command of the operator-pending keymap behind each operator: `cs"'` reads one
+			// key for the surround object and the pending operator reads another one
+			for _, op := range [][2]string{{"c", "vi-change-to"}, {"d", "vi-delete-to"}, {"y", "vi-yank-to"}} {
+				for _, cmd := range vioppCommands {
+					for _, n := range []int{1, 2} {
+						j := stepJob("vi-command", cmd, n, "", op[0], false, false)
+						j.Params["lk"] = "vi-opp"
+						j.Params["op"] = op[1]
+						j.Name = strings.Replace(j.Name, "{", "{lk=vi-opp,op="+op[1]+",", 1)
+						if n >= 2 {
+							j.Params["alpha"] = "ascii"
+						}
+						jobs = append(jobs, j)
 					}
 				}
 			}
